@@ -62,6 +62,16 @@ type Scn struct {
 	// whose MarshalJSON returns an error.
 	FailAt   int    `json:"fail_at"`
 	FailMode string `json:"fail_mode"`
+	// SERVER-SIDE cancellation of the request context while the client stays connected (round 4).
+	// CancelMode "cancel": a middleware wraps the request context in context.WithCancel around the real
+	// handler.Server; the response source calls the cancel function inside its call number CancelAt + 1,
+	// i.e. after it has produced CancelAt payloads (0 = before the first one, total = after the last one).
+	// "timeout": context.WithTimeout(CancelNs) instead; the source blocks in that call until the deadline
+	// has fired. From then on the source IGNORES the context: it produces its remaining payloads on
+	// schedule (an operation may well answer after its context is done). "" = no such middleware.
+	CancelMode string `json:"cancel_mode"`
+	CancelAt   int    `json:"cancel_at"`
+	CancelNs   int64  `json:"cancel_ns"`
 }
 
 // unencodable is an extension value json.Marshal cannot encode.
@@ -90,6 +100,10 @@ type rec struct {
 	returned bool
 	gate     chan struct{}
 	obs      *gateObs
+	// server-side cancellation: the middleware's cancel function; the source call (= number of payloads
+	// produced before it) in which the context was first found / made done, -1 = never
+	cancel     context.CancelFunc
+	cancelSeen int
 }
 
 type scnKey struct{}
@@ -177,6 +191,27 @@ func exec(ctx context.Context) graphql.ResponseHandler {
 		return 8
 	}
 	return func(ctx context.Context) *graphql.Response {
+		if r.scn.CancelMode != "" {
+			// the operation's view of a server-side cancellation: it notices (or causes) it at the start of one
+			// of its calls and goes on producing what it has to say - the waits below no longer look at ctx
+			r.mu.Lock()
+			seen, cancel := r.cancelSeen, r.cancel
+			r.mu.Unlock()
+			if seen < 0 {
+				if i == r.scn.CancelAt {
+					if r.scn.CancelMode == "cancel" && cancel != nil {
+						cancel()
+					}
+					<-ctx.Done() // "timeout": the deadline of the middleware's context.WithTimeout
+				}
+				if ctx.Err() != nil {
+					r.mu.Lock()
+					r.cancelSeen = i
+					r.mu.Unlock()
+				}
+			}
+			ctx = context.WithoutCancel(ctx)
+		}
 		if i >= total {
 			wait(ctx, r, r.scn.EndDelayNs)
 			return nil
@@ -292,7 +327,7 @@ func main() {
 		}
 		var r *rec
 		if h := req.Header.Get("X-Verif-Scn"); h != "" {
-			r = &rec{gate: make(chan struct{}, 64)}
+			r = &rec{gate: make(chan struct{}, 64), cancelSeen: -1}
 			if err := json.Unmarshal([]byte(h), &r.scn); err != nil {
 				http.Error(w, "bad scenario", 400)
 				return
@@ -306,6 +341,21 @@ func main() {
 			r.entered = true
 			r.mu.Unlock()
 			req = req.WithContext(context.WithValue(req.Context(), scnKey{}, r))
+			if r.scn.CancelMode != "" {
+				// the cancelling middleware: user code around the real handler.Server; the client stays connected
+				var ctx context.Context
+				var cancel context.CancelFunc
+				if r.scn.CancelMode == "timeout" {
+					ctx, cancel = context.WithTimeout(req.Context(), time.Duration(r.scn.CancelNs))
+				} else {
+					ctx, cancel = context.WithCancel(req.Context())
+				}
+				defer cancel()
+				r.mu.Lock()
+				r.cancel = cancel
+				r.mu.Unlock()
+				req = req.WithContext(ctx)
+			}
 		}
 		active.Add(1)
 		defer func() {
@@ -328,12 +378,13 @@ func main() {
 	mux.HandleFunc("/g/", serve)
 	mux.HandleFunc("/h/", serve)
 	mux.HandleFunc("/ctl/state", func(w http.ResponseWriter, req *http.Request) {
-		out := map[string]any{"active": active.Load(), "found": false, "produced": []int{}, "entered": false, "returned": false}
+		out := map[string]any{"active": active.Load(), "found": false, "produced": []int{}, "entered": false, "returned": false, "cancel_seen": -1}
 		if v, ok := recs.Load(req.URL.Query().Get("id")); ok {
 			r := v.(*rec)
 			r.mu.Lock()
 			out["found"], out["entered"], out["returned"] = true, r.entered, r.returned
 			out["produced"] = append([]int{}, r.produced...)
+			out["cancel_seen"] = r.cancelSeen
 			if r.obs != nil {
 				out["gate"] = r.obs
 			}
@@ -348,7 +399,7 @@ func main() {
 	})
 	mux.HandleFunc("/ctl/release", func(w http.ResponseWriter, req *http.Request) {
 		id := req.URL.Query().Get("id")
-		v, _ := recs.LoadOrStore(id, &rec{gate: make(chan struct{}, 64), scn: Scn{ID: id}})
+		v, _ := recs.LoadOrStore(id, &rec{gate: make(chan struct{}, 64), scn: Scn{ID: id}, cancelSeen: -1})
 		select {
 		case v.(*rec).gate <- struct{}{}:
 		default:
